@@ -318,7 +318,17 @@ def build_runner(mod):
     rc, out, dt = sh("%s/harness/build_model.sh %s" % (VERIF, mod.CLUSTER), 600)
     if rc != 0:
         return None, out[-800:]
-    return "%s/build/%s/run" % (VERIF, mod.CLUSTER.lower()), ""
+    # a private copy: another check (or a trial on a scratch tree) may rebuild the shared runner while this one evaluates
+    src = "%s/build/%s/run" % (VERIF, mod.CLUSTER.lower())
+    priv = "%s/build/%s/run.%d" % (VERIF, mod.CLUSTER.lower(), os.getpid())
+    try:
+        import atexit
+        import shutil
+        shutil.copy2(src, priv)
+        atexit.register(lambda: os.path.exists(priv) and os.unlink(priv))
+        return priv, ""
+    except OSError:
+        return src, ""
 
 
 # ------------------------------------------------------------------ verdicts
